@@ -446,3 +446,203 @@ Proof.
     clear -Q L1 L2. assert (L : length run = length o1) by congruence. clear L1 L2.
     revert run L. induction Q; intros [|r run] L; cbn in *; try discriminate; constructor; auto.
 Qed.
+
+(* ------------------------------------------------------------------ phased_blocks_as_reads *)
+Definition centry := (option Z * Z * list nat * option token)%type.   (* block, position, alleles, quality *)
+Definition ce_block (e : centry) : option Z := fst (fst (fst e)).
+Definition ce_pos (e : centry) : Z := snd (fst (fst e)).
+Definition ce_alleles (e : centry) : list nat := snd (fst e).
+Definition ce_quality (e : centry) : option token := snd e.
+
+Definition contribs (inset : Z -> bool) (i : nat) (rows : list row) : list centry :=
+  flat_map (fun rw => match contributes inset i rw with Some e => [e] | None => [] end) rows.
+
+Definition members (cs : list centry) (b : option Z) : list centry :=
+  filter (fun e => oz_eqb (ce_block e) b) cs.
+
+Definition read_of (ms : list centry) (k : nat) : pread :=
+  map (fun e => (ce_pos e, nth k (ce_alleles e) O, ce_quality e)) ms.
+
+Lemma oz_eqb_eq a b : oz_eqb a b = true <-> a = b.
+Proof.
+  unfold oz_eqb, opt_eqb. destruct a, b; split; intros H; try discriminate; try reflexivity.
+  - apply Z.eqb_eq in H. congruence.
+  - inversion H. apply Z.eqb_refl.
+Qed.
+
+Lemma block_ids_in cs seen b :
+  In b seen \/ (exists e, In e cs /\ ce_block e = b) -> In b (block_ids cs seen).
+Proof.
+  revert seen. induction cs as [|[[[b' p] ns] q] cs IH]; intros seen H; cbn [block_ids].
+  - destruct H as [H|[e [[] _]]]. apply in_rev in H. exact H.
+  - destruct (existsb (oz_eqb b') seen) eqn:Ex.
+    + apply IH. destruct H as [H|[e [[<-|He] Hb]]]; [left; exact H| |right; eauto].
+      left. cbn in Hb. subst b. apply existsb_exists in Ex. destruct Ex as [x [Hx Hx']].
+      apply oz_eqb_eq in Hx'. subst. exact Hx.
+    + apply IH. destruct H as [H|[e [[<-|He] Hb]]]; [left; right; exact H| |right; eauto].
+      left. left. exact Hb.
+Qed.
+
+Lemma block_read_members cs b k :
+  (forall e, In e (members cs b) -> length (ce_alleles e) = 2%nat) -> (k < 2)%nat ->
+  block_read cs b k = read_of (members cs b) k.
+Proof.
+  intros Hw Hk. unfold block_read, read_of, members in *.
+  induction cs as [|[[[b' p] ns] q] cs IH]; [reflexivity|].
+  cbn [flat_map filter]. unfold ce_block at 1. cbn [fst snd].
+  destruct (oz_eqb b' b) eqn:E.
+  - cbn [map]. rewrite IH.
+    + assert (Hl : length ns = 2%nat).
+      { apply (Hw (b', p, ns, q)). cbn [filter]. unfold ce_block. cbn [fst]. rewrite E. left. reflexivity. }
+      destruct ns as [|a0 [|a1 [|]]]; try discriminate.
+      destruct k as [|[|k]]; [reflexivity|reflexivity|lia].
+    + intros e He. apply Hw. cbn [filter]. unfold ce_block at 1. cbn [fst]. rewrite E. right. exact He.
+  - cbn. apply IH. intros e He. apply Hw. cbn [filter]. unfold ce_block at 1. cbn [fst]. rewrite E. exact He.
+Qed.
+
+Lemma find_members cs b e0 ms :
+  members cs b = e0 :: ms -> find (fun e => oz_eqb (fst (fst (fst e))) b) cs = Some e0.
+Proof.
+  unfold members. induction cs as [|e cs IH]; cbn; [discriminate|].
+  unfold ce_block. destruct (oz_eqb (fst (fst (fst e))) b); [intros H; inversion H; reflexivity|exact IH].
+Qed.
+
+(* the pseudo reads of one phase set *)
+Theorem blocks_as_reads_roundtrip inset i rows b :
+  let cs := contribs inset i rows in
+  let ms := members cs b in
+  (forall e, In e ms -> exists a0 a1, ce_alleles e = [a0; a1] /\ a0 <> a1) ->
+  (2 <= length ms)%nat ->
+  (* exactly the two reads of the set are yielded for this block id *)
+  (forall k rd, In (b, k, rd) (blocks_as_reads inset i rows) <->
+                (k = 0%nat /\ rd = read_of ms 0) \/ (k = 1%nat /\ rd = read_of ms 1)) /\
+  (* they cover the same positions, with complementary alleles *)
+  map (fun x => fst (fst x)) (read_of ms 0) = map (fun x => fst (fst x)) (read_of ms 1) /\
+  Forall2 (fun x y => snd (fst x) <> snd (fst y)) (read_of ms 0) (read_of ms 1) /\
+  (* the bipartition {read 0} | {read 1} has no conflict and its two haplotypes are the phase set *)
+  map (fun xy => (fst (fst (fst xy)), [snd (fst (fst xy)); snd (fst (snd xy))]))
+      (combine (read_of ms 0) (read_of ms 1))
+  = map (fun e => (ce_pos e, ce_alleles e)) ms.
+Proof.
+  intros cs ms Hc Hlen.
+  assert (Hw : forall e, In e (members cs b) -> length (ce_alleles e) = 2%nat).
+  { intros e He. destruct (Hc e He) as [a0 [a1 [H _]]]. rewrite H. reflexivity. }
+  split; [|split; [|split]].
+  - intros k rd. unfold blocks_as_reads. fold (contribs inset i rows). fold cs.
+    rewrite in_flat_map. split.
+    + intros [b' [Hb' Hin]].
+      rewrite in_flat_map in Hin. destruct Hin as [k' [Hk' Hin]].
+      destruct (1 <? length (block_read cs b' k'))%nat; [|contradiction].
+      destruct Hin as [Hin|[]]. inversion Hin. subst b' k' rd.
+      destruct ms as [|e0 ms'] eqn:Em; [cbn in Hlen; lia|].
+      fold ms in Em. unfold ms in Em. rewrite (find_members _ _ _ _ Em) in Hk'.
+      destruct e0 as [[[b0 p0] ns0] q0].
+      assert (Hl0 : length ns0 = 2%nat).
+      { apply (Hw (b0, p0, ns0, q0)). rewrite Em. left. reflexivity. }
+      rewrite Hl0 in Hk'. cbn in Hk'.
+      destruct Hk' as [<-|[<-|[]]]; [left|right]; split; try reflexivity;
+        rewrite block_read_members by (auto; lia); unfold ms; rewrite Em; reflexivity.
+    + intros Hk.
+      assert (Hk2 : (k < 2)%nat /\ rd = read_of ms k).
+      { destruct Hk as [[-> ->]|[-> ->]]; split; auto; lia. }
+      destruct Hk2 as [Hk2 ->]. clear Hk.
+      destruct ms as [|e0 ms'] eqn:Em; [cbn in Hlen; lia|]. fold ms in Em.
+      exists b. split.
+      * apply block_ids_in. right. exists e0. split.
+        -- assert (Hin : In e0 (members cs b)) by (unfold ms in Em; rewrite Em; left; reflexivity).
+           unfold members in Hin. apply filter_In in Hin. apply Hin.
+        -- assert (Hin : In e0 (members cs b)) by (unfold ms in Em; rewrite Em; left; reflexivity).
+           unfold members in Hin. apply filter_In in Hin. destruct Hin as [_ Hin]. apply oz_eqb_eq in Hin. exact Hin.
+      * unfold ms in Em. rewrite (find_members _ _ _ _ Em).
+        destruct e0 as [[[b0 p0] ns0] q0].
+        assert (Hl0 : length ns0 = 2%nat).
+        { apply (Hw (b0, p0, ns0, q0)). rewrite Em. left. reflexivity. }
+        rewrite Hl0. rewrite in_flat_map. exists k. split.
+        -- cbn. destruct k as [|[|k]]; auto; lia.
+        -- rewrite block_read_members by (auto; lia). rewrite Em.
+           assert (Hlr : (1 <? length (read_of ((b0, p0, ns0, q0) :: ms') k))%nat = true).
+           { apply Nat.ltb_lt. unfold read_of. rewrite map_length. cbn [length] in *. lia. }
+           match goal with |- In _ (if ?cnd then _ else _) => assert (Hc' : cnd = true) by exact Hlr; rewrite Hc' end.
+           left. reflexivity.
+  - unfold read_of. rewrite !map_map. reflexivity.
+  - unfold read_of. clear Hlen Hw. induction ms as [|e ms' IH]; cbn; constructor.
+    + cbn. destruct (Hc e (or_introl eq_refl)) as [a0 [a1 [H Hd]]]. rewrite H. cbn. exact Hd.
+    + apply IH. intros e' He'. apply Hc. right. exact He'.
+  - unfold read_of. clear Hlen Hw. induction ms as [|e ms' IH]; cbn; [reflexivity|].
+    destruct (Hc e (or_introl eq_refl)) as [a0 [a1 [H Hd]]]. rewrite H. cbn. f_equal.
+    apply IH. intros e' He'. apply Hc. right. exact He'.
+Qed.
+
+(* ------------------------------------------------------------------ decode = written, record by record *)
+Fixpoint run_exact (cf : cfg) (ts : list target) (prev : option Z) (inp out : list vrec) : Prop :=
+  match inp, out with
+  | r :: inp', o :: out' =>
+    let sk := skip cf ts prev r in
+    (forall t c', In t ts -> nth_error (calls o) (t_sample t) = Some c' ->
+       stmts_exact (tag cf) c' (match sk with Some _ => None | None => written cf ts (t_sample t) (pos r) end))
+    /\ run_exact cf ts (match sk with Some _ => prev | None => Some (pos r) end) inp' out'
+  | _, _ => True
+  end.
+
+Fixpoint file_exact (cf : cfg) (plan : list (token * list target)) (inp out : list vrec) : Prop :=
+  match plan with
+  | [] => True
+  | (c, ts) :: more =>
+    let '(run, tl) := take_run c inp in
+    run_exact cf ts None run (firstn (length run) out) /\ file_exact cf more tl (skipn (length run) out)
+  end.
+
+Lemma stmts_exact_none tg c0 : wf_call c0 -> stmts_exact tg (fix_rm tg c0) None.
+Proof.
+  intros Hw. destruct (fix_rm_no_stmt tg true c0 Hw) as [H1 H2]. destruct tg; cbn; auto.
+Qed.
+
+Lemma steps_exact cf ts prev run o :
+  mav cf = false -> NoDup (map t_sample ts) ->
+  Forall (fun t => Forall (fun s => length (snd s) = 2%nat) (t_super t)) ts ->
+  Forall (fun r => Forall wf_call (calls r)) run ->
+  steps cf fix_rules ts prev run = Ok o ->
+  run_exact cf ts prev run o.
+Proof.
+  intros Hmav ND Hdip. revert prev o. induction run as [|r run IH]; intros prev o Hwf H; cbn [steps] in H.
+  - inversion H. exact I.
+  - destruct (record_step cf fix_rules ts prev r) as [[p' o']|e] eqn:Er; cbn [bind] in H; [|discriminate].
+    cbn [fst snd] in H. destruct (steps cf fix_rules ts p' run) as [out'|e] eqn:Es; cbn [bind] in H; [|discriminate].
+    inversion H. subst o. clear H. inversion Hwf as [|? ? Hw1 Hw2]. subst.
+    destruct (record_step_spec _ _ _ _ _ _ _ ND Er) as [_ [L [_ [Hp' Hc]]]].
+    destruct (sync_end_spec (end_decl cf) o') as [_ [_ [_ [E4 _]]]].
+    cbn [run_exact]. rewrite E4. split.
+    + intros t c' Ht En.
+      assert (Hx : exists c, nth_error (calls r) (t_sample t) = Some c).
+      { destruct (nth_error (calls r) (t_sample t)) eqn:E; [eauto|].
+        apply nth_error_None in E. rewrite <- L in E. apply nth_error_None in E. congruence. }
+      destruct Hx as [c Hx]. specialize (Hc _ _ Hx). rewrite (target_of_in _ _ ND Ht) in Hc.
+      assert (Hwc : wf_call c).
+      { rewrite Forall_forall in Hw1. apply Hw1. eapply nth_error_In; eauto. }
+      rewrite Forall_forall in Hdip. specialize (Hdip t Ht).
+      destruct (skip cf ts prev r) as [why|] eqn:Esk.
+      * rewrite Hc in En. inversion En. subst c'. apply (stmts_exact_none (tag cf) c Hwc).
+      * destruct Hc as [c2 [Hu Hn]]. rewrite Hn in En. inversion En. subst c2.
+        rewrite (written_target _ _ _ _ _ (target_of_in _ _ ND Ht)).
+        eapply fix_call_exact; eauto. apply Hwc.
+    + rewrite <- Hp'. apply IH; assumption.
+Qed.
+
+Theorem decode_written_fixed cf plan input out :
+  mav cf = false -> plan_wf plan -> plan_diploid plan -> wf_input input ->
+  map fst plan = runs input -> phase_writer cf fix_rules plan input = Ok out ->
+  file_exact cf plan input out.
+Proof.
+  intros Hmav W D Wf Hp H. rewrite phase_writer_simple in H by exact Hp. clear Hp.
+  revert input out Wf H. induction plan as [|[c ts] more IH]; intros l out Wf H; [exact I|].
+  cbn [simple file_exact] in *. inversion W as [|? ? W1 W2]. inversion D as [|? ? D1 D2]. subst.
+  destruct (take_run c l) as [run tl] eqn:Et.
+  destruct (steps cf fix_rules ts None run) as [o|e] eqn:Es; cbn [bind] in H; [|discriminate].
+  destruct (simple cf fix_rules more tl) as [out'|e] eqn:Em; cbn [bind] in H; [|discriminate].
+  inversion H. subst out. clear H.
+  destruct (Forall_take_run _ _ _ _ _ Et Wf) as [F1 F2].
+  pose proof (steps_length _ _ _ _ _ _ Es) as Hl.
+  rewrite <- Hl, firstn_app, Nat.sub_diag, firstn_all, firstn_O, app_nil_r.
+  rewrite skipn_app, Nat.sub_diag, skipn_all, skipn_O. cbn [app].
+  split; [apply steps_exact; assumption|apply IH; assumption].
+Qed.
